@@ -84,18 +84,23 @@ impl Network {
     pub async fn propagate_transaction(&self, transaction: &Transaction) {
         // TODO : return if tx is not valid
 
+        let first_input = match transaction.from.first() {
+            Some(slip) => slip,
+            None => {
+                // nothing user-originated has no inputs; never forward such a transaction
+                warn!(
+                    "transaction : {:?} has no inputs. not propagating",
+                    transaction.signature.to_hex()
+                );
+                return;
+            }
+        };
         let peers = self.peer_lock.read().await;
         let mut wallet = self.wallet_lock.write().await;
 
         let public_key = wallet.public_key;
 
-        if transaction
-            .from
-            .first()
-            .expect("from slip should exist")
-            .public_key
-            == public_key
-        {
+        if first_input.public_key == public_key {
             if let TransactionType::GoldenTicket = transaction.transaction_type {
             } else {
                 wallet.add_to_pending(transaction.clone());
